@@ -3,7 +3,7 @@ property statement (request counts, warm-up flags, progress, pacing, ramp-up, ch
 import asyncio
 import itertools
 
-from common import done, load
+from common import done, load, probe_exception
 
 
 class Src:
@@ -123,7 +123,7 @@ def main(rec):
         try:
             v = f()
         except Exception as ex:  # noqa
-            v = f"{f.__name__} raised {type(ex).__name__}: {ex}"
+            v = probe_exception(f, ex)
         if v:
             done(True, v)
     done(False, "no failing task spec found for " + rec.get("obligation", ""))
